@@ -33,6 +33,47 @@ const HAND: &[&str] = &[
     "&a a: b\n*a : c\n",
 ];
 
+/// Structured family: an alias replayed while `depth` anchored containers are open, followed by
+/// aliases to each of those containers (outermost first), for sequences and mappings.
+fn nested_anchor_family() -> Vec<Node> {
+    let p = |t: &str| Node::plain(t);
+    let seq = |items: Vec<Node>, a: Option<String>| Node::Seq { items, flow: true, tag: None, anchor: a };
+    let map = |entries: Vec<(Node, Node)>, a: Option<String>| Node::Map { entries, flow: true, anchor: a };
+    let mut out = Vec::new();
+    for depth in 1..=4usize {
+        for maps in [false, true] {
+            for base_map in [false, true] {
+                let base = if base_map {
+                    map(vec![(p("p"), p("1")), (p("q"), seq(vec![p("2")], None))], Some("x".into()))
+                } else {
+                    seq(vec![p("1"), p("2")], Some("x".into()))
+                };
+                let mut inner = if maps { map(vec![(p("a"), Node::Alias("x".into())), (p("b"), p("9"))], None) } else { seq(vec![Node::Alias("x".into()), p("9")], None) };
+                for i in (0..depth).rev() {
+                    inner = if maps {
+                        map(vec![(p(&format!("k{i}")), inner), (p(&format!("t{i}")), p(&i.to_string()))], Some(format!("o{i}")))
+                    } else {
+                        seq(vec![inner, p(&i.to_string())], Some(format!("o{i}")))
+                    };
+                }
+                let mut entries = vec![(p("base"), base), (p("outer"), inner)];
+                for i in 0..depth {
+                    entries.push((p(&format!("copy{i}")), Node::Alias(format!("o{i}"))));
+                }
+                entries.push((p("again"), Node::Alias("x".into())));
+                out.push(Node::Map { entries, flow: false, anchor: None });
+            }
+        }
+    }
+    // the same name re-defined at several depths
+    let n = |x: Node| x;
+    out.push(n(map(vec![
+        (p("a"), seq(vec![seq(vec![Node::Scalar { text: "1".into(), sty: Sty::Plain, tag: None, anchor: Some("n".into()) }, Node::Alias("n".into())], Some("n".into())), p("7")], Some("n".into()))),
+        (p("b"), Node::Alias("n".into())),
+    ], None)));
+    out
+}
+
 pub fn compare(ctx: &mut Ctx, what: &str, class: &str, t1: &str, t2: &str, pol: DuplicateKeyPolicy) {
     ctx.direct_evaluations += 1;
     let r1 = util::no_panic(|| tree::read(t1, pol));
@@ -78,7 +119,8 @@ pub fn run(ctx: &mut Ctx) {
     let quick = ctx.quick();
     let mut rng = ctx.rng.fork();
     let mut docs: Vec<(String, Option<Node>)> = HAND.iter().map(|s| (s.to_string(), None)).collect();
-    let n_gen = if quick { 400 } else { 5000 };
+    docs.extend(nested_anchor_family().into_iter().map(|n| (docgen::render_doc(&n), Some(n))));
+    let n_gen = if quick { 1200 } else { 8000 };
     for i in 0..n_gen {
         let mut cfg = GenCfg::default_for(if quick { 12 } else { 24 });
         cfg.dup_keys = i % 4 == 0;
